@@ -407,7 +407,8 @@ class P(Prop):
                 if bad_serial and c["cls"] in ("drive", "ptipto"):
                     c["unrepresentable"] = True
                 enrich13(rng, c)
-            case = {"kind": kind, "plant": plant, "mech": [], "stream": "roundtrip"}
+            # uids given by the user and kept across plant revisions (otherwise every component draws a fresh uuid4)
+            case = {"kind": kind, "plant": plant, "mech": [], "stream": "roundtrip", "fixed_uids": rng.random() < 0.35}
             if kind == "hybrid" and not any(c["cls"] == "ptipto" for c in plant["comps"]):
                 plant["comps"].append(enrich13(rng, {"name": "pti0", "cls": "ptipto", "swb": plant["comps"][0]["swb"],
                                                      "rated": Fraction(rng.randint(2, 20) * 50)}))
@@ -447,16 +448,35 @@ class P(Prop):
 
     # ---- the implementation -------------------------------------------------------------------------
     @staticmethod
+    def fix_uids(objs):
+        """the same component name gets the same uid in every plant of this process (a study that revises a plant keeps its uids)"""
+        def walk(o, path):
+            if hasattr(o, "uid"):
+                o.uid = "uid:" + path
+            for a in ("aux_engine", "engine", "generator", "converter", "fuel_cell", "battery", "supercapacitor", "cogas", "gearbox"):
+                sub = getattr(o, a, None)
+                if sub is not None and hasattr(sub, "uid"):
+                    walk(sub, path + "/" + a)
+            for k, sub in enumerate(getattr(o, "components", None) or []):
+                walk(sub, f"{path}/stage{k}")
+        for o in objs:
+            walk(o, o.name)
+
+    @staticmethod
     def build(case):
         from feems.system_model import (HybridPropulsionSystem, MechanicalPropulsionSystem,
                                         MechanicalPropulsionSystemWithElectricPowerSystem)
         es, eobjs = pg.build_electric_system(case["plant"])
+        if case.get("fixed_uids"):
+            P.fix_uids(eobjs)
         if case["kind"] == "electric":
             return es
         byname = {d["name"]: o for d, o in zip(case["plant"]["comps"], eobjs)}
         mobjs = []
         for d in case["mech"]:
             mobjs.append(pg.build_electric_component(d) if d["cls"] == "ptipto" else pg.build_mechanical_component(d))
+        if case.get("fixed_uids"):
+            P.fix_uids(mobjs)
         if case["kind"] == "hybrid":
             ptis = [byname[d["name"]] for d in case["plant"]["comps"] if d["cls"] == "ptipto"]
             return HybridPropulsionSystem("hyb", es, MechanicalPropulsionSystem("mech", mobjs + ptis))
@@ -786,7 +806,7 @@ class P(Prop):
         return len(comps) >= 3 and len({c["cls"] for c in comps}) >= 2
 
     def tags(self, case, obs):
-        t = ["plant=" + case["kind"], "stream=" + case["stream"]]
+        t = ["plant=" + case["kind"], "stream=" + case["stream"], "uids=" + ("given(fixed per name)" if case.get("fixed_uids") else "generated")]
         for c in list(case["plant"]["comps"]) + list(case.get("mech") or []):
             t.append("cls:" + c["cls"])
             e = c.get("engine") or c.get("cogas") or {}
